@@ -37,11 +37,15 @@ struct Tracked {
   Tracked(const Tracked&) = delete;
   Tracked& operator=(const Tracked&) = delete;
   ~Tracked() {
+    // every element object - also a moved-from shell left behind in a slot - is destroyed exactly once: a second
+    // destructor call on the same object (no constructor in between) is "destroyed twice" for any element type
+    // whose moved-from state still owns something. (volatile: the marker store below must survive -flifetime-dse)
+    if (*(volatile int*)&token == -2) xsim::fail("element-object-destroyed-twice", "the destructor of an element object ran twice on the same storage without a constructor in between");
     if (token >= 0) {
       if (raw && !g_harness_deleting) xsim::fail("queue-destroyed-raw-pointer", "the queue destroyed element %d that it only holds by raw pointer", token);
       obj_died(token, -1);
     }
-    token = -2;
+    *(volatile int*)&token = -2;
   }
 };
 
